@@ -35,6 +35,12 @@ UNIT = dict(
         subst=[("vec![]", "Vec::new()"), ("mpsc::error::TrySendError::", "TrySendError::"), ("mpsc::error::SendError(", "SendError(")],
     ),
     structural=[
+        dict(id="C02+C01.structure.priority_order_is_the_derived_one", file="crates/events/src/event.rs", count_in_file=True,
+             raw_regex=r"^#\[derive\((?=[^\]]*\bOrd\b)(?=[^\]]*\bPartialOrd\b)[^\]]*\)\]\n(?:(?:#\[|///).*\n)*pub enum Priority\b", expect=1,
+             why="the order the event queue uses is the derived one (declaration order of the variants), which the generated prio_rank spec function mirrors"),
+        dict(id="C02+C01.structure.priority_has_no_hand_written_order", file="crates/events/src/event.rs", count_in_file=True,
+             pattern="for Priority", expect=1,
+             why="the only trait implemented by hand for Priority is Default (one `impl .. for Priority`): no hand-written Ord/PartialOrd can override the derived order"),
         dict(id="C02.structure.cli_debounce_is_the_throttle", file="crates/cli/src/config.rs", count_in_fn="make_config", pattern="config.throttle(args.events.debounce.0);", expect=1,
              why="the CLI's --debounce value is the configured throttle"),
         dict(id="C02.structure.cli_throttle_set_once", file="crates/cli/src/config.rs", count_in_fn="make_config", pattern="config.throttle(", expect=1, why="nothing overrides it"),
